@@ -76,7 +76,15 @@ func (s *RSchema) Example() ([]byte, error) {
 	return s.generateExample()
 }
 
-func (s *RSchema) generateExample() ([]byte, error) {
+func (s *RSchema) generateExample() (ex []byte, err error) {
+	// The generator panics on some patterns it cannot serve (a character class
+	// without a printable member, for instance `[^\x00-\x7f]`).
+	defer func() {
+		if r := recover(); r != nil {
+			ex, err = nil, errs.ErrRegexExample.F(r)
+		}
+	}()
+
 	g, err := s.generatorOnce.Do(func() (*reggen.Generator, error) {
 		g, err := reggen.NewGenerator(s.pattern)
 		if err != nil {
